@@ -32,11 +32,11 @@ import (
 type c11Input struct {
 	Srcs     []string `json:"srcs"`
 	Resolver bool     `json:"resolver"`
-	Side     string   `json:"side"`             // decorator | restorer
-	Extras   bool     `json:"extras,omitempty"` // restorer side: Restorer.Extras (objects and scopes restored, deferred declaring nodes)
-	Package  bool     `json:"package,omitempty"` // the files are resolved as one package first (ast.NewPackage): identifiers of one file carry objects declared in another
+	Side     string   `json:"side"`                        // decorator | restorer
+	Extras   bool     `json:"extras,omitempty"`            // restorer side: Restorer.Extras (objects and scopes restored, deferred declaring nodes)
+	Package  bool     `json:"package,omitempty"`           // the files are resolved as one package first (ast.NewPackage): identifiers of one file carry objects declared in another
 	Remove   bool     `json:"remove_first_stmt,omitempty"` // restorer side: the first statement of the first function is taken out after decorating (its objects keep pointing at it)
-	PkgAPI   string   `json:"package_api,omitempty"` // decorator side, the package as the root node: "ParseDir" (Decorator.ParseDir on a directory holding the sources as f<i>.go) | "DecorateNode" (an *ast.Package per package name handed to DecorateNode)
+	PkgAPI   string   `json:"package_api,omitempty"`       // decorator side, the package as the root node: "ParseDir" (Decorator.ParseDir on a directory holding the sources as f<i>.go) | "DecorateNode" (an *ast.Package per package name handed to DecorateNode)
 }
 
 func astKind(n ast.Node) string { return kindOf(n) }
